@@ -14,6 +14,7 @@ CONSTANTS
   ApiOps = TRUE
   SeqReq = TRUE
   Reqs = {}
+  LocalKinds = {"budget", "attemptLimit", "deadline", "cancel", "shed", "bestEffort"}
 INIT Init
 NEXT Next
 VIEW View
